@@ -209,6 +209,14 @@ Proof.
   - pose proof (clamp_tier_ge1 first). lia.
 Qed.
 
+Theorem calc_budget_sign total first M g b :
+  calc_budget total first M g = Ok b -> 0 <= b /\ (0 < total -> 1 <= b) /\ (total <= 0 -> b = 0).
+Proof.
+  intros H. split; [eapply calc_budget_nonneg; exact H|]. split.
+  - intros Hp. eapply calc_budget_pos; eassumption.
+  - intros Hn. rewrite (calc_budget_zero total first M g Hn) in H. inversion H. reflexivity.
+Qed.
+
 (* ---------- the general (linear) bound: budget <= ceil(total/first) ---------- *)
 
 Theorem budget_linear_bound_all total first M g b :
